@@ -115,33 +115,29 @@ crate::harnesses! {
     @quick c04_pair_8_6_4[16] => intersect_row(8, 6, 4, 4);
     @quick c04_pair_8_5_3[16] => intersect_row(8, 5, 3, 3);
     @quick c04_pair_8_7_0[16] => intersect_row(8, 7, 0, 0);
-    // thorough: every stride pair (sa, sb) in 0..=12 x 0..=12, one harness per half row
-    c04_row_8_0_lo[16] => intersect_row(8, 0, 0, 6);
-    c04_row_8_0_hi[16] => intersect_row(8, 0, 7, 12);
-    c04_row_8_1_lo[16] => intersect_row(8, 1, 0, 6);
-    c04_row_8_1_hi[16] => intersect_row(8, 1, 7, 12);
-    c04_row_8_2_lo[16] => intersect_row(8, 2, 0, 6);
-    c04_row_8_2_hi[16] => intersect_row(8, 2, 7, 12);
-    c04_row_8_3_lo[16] => intersect_row(8, 3, 0, 6);
-    c04_row_8_3_hi[16] => intersect_row(8, 3, 7, 12);
-    c04_row_8_4_lo[16] => intersect_row(8, 4, 0, 6);
-    c04_row_8_4_hi[16] => intersect_row(8, 4, 7, 12);
-    c04_row_8_5_lo[16] => intersect_row(8, 5, 0, 6);
-    c04_row_8_5_hi[16] => intersect_row(8, 5, 7, 12);
-    c04_row_8_6_lo[16] => intersect_row(8, 6, 0, 6);
-    c04_row_8_6_hi[16] => intersect_row(8, 6, 7, 12);
-    c04_row_8_7_lo[16] => intersect_row(8, 7, 0, 6);
-    c04_row_8_7_hi[16] => intersect_row(8, 7, 7, 12);
-    c04_row_8_8_lo[16] => intersect_row(8, 8, 0, 6);
-    c04_row_8_8_hi[16] => intersect_row(8, 8, 7, 12);
-    c04_row_8_9_lo[16] => intersect_row(8, 9, 0, 6);
-    c04_row_8_9_hi[16] => intersect_row(8, 9, 7, 12);
-    c04_row_8_10_lo[16] => intersect_row(8, 10, 0, 6);
-    c04_row_8_10_hi[16] => intersect_row(8, 10, 7, 12);
-    c04_row_8_11_lo[16] => intersect_row(8, 11, 0, 6);
-    c04_row_8_11_hi[16] => intersect_row(8, 11, 7, 12);
-    c04_row_8_12_lo[16] => intersect_row(8, 12, 0, 6);
-    c04_row_8_12_hi[16] => intersect_row(8, 12, 7, 12);
+    // thorough: every stride pair (sa, sb) in 0..=10 x 0..=10 (121 pairs, 1.5-4 min each), one harness per half row
+    c04_row_8_0_lo[16] => intersect_row(8, 0, 0, 5);
+    c04_row_8_0_hi[16] => intersect_row(8, 0, 6, 10);
+    c04_row_8_1_lo[16] => intersect_row(8, 1, 0, 5);
+    c04_row_8_1_hi[16] => intersect_row(8, 1, 6, 10);
+    c04_row_8_2_lo[16] => intersect_row(8, 2, 0, 5);
+    c04_row_8_2_hi[16] => intersect_row(8, 2, 6, 10);
+    c04_row_8_3_lo[16] => intersect_row(8, 3, 0, 5);
+    c04_row_8_3_hi[16] => intersect_row(8, 3, 6, 10);
+    c04_row_8_4_lo[16] => intersect_row(8, 4, 0, 5);
+    c04_row_8_4_hi[16] => intersect_row(8, 4, 6, 10);
+    c04_row_8_5_lo[16] => intersect_row(8, 5, 0, 5);
+    c04_row_8_5_hi[16] => intersect_row(8, 5, 6, 10);
+    c04_row_8_6_lo[16] => intersect_row(8, 6, 0, 5);
+    c04_row_8_6_hi[16] => intersect_row(8, 6, 6, 10);
+    c04_row_8_7_lo[16] => intersect_row(8, 7, 0, 5);
+    c04_row_8_7_hi[16] => intersect_row(8, 7, 6, 10);
+    c04_row_8_8_lo[16] => intersect_row(8, 8, 0, 5);
+    c04_row_8_8_hi[16] => intersect_row(8, 8, 6, 10);
+    c04_row_8_9_lo[16] => intersect_row(8, 9, 0, 5);
+    c04_row_8_9_hi[16] => intersect_row(8, 9, 6, 10);
+    c04_row_8_10_lo[16] => intersect_row(8, 10, 0, 5);
+    c04_row_8_10_hi[16] => intersect_row(8, 10, 6, 10);
     // fully symbolic strides: the i128 residue-class arithmetic with symbolic divisors makes these proofs very long
     @stretch c04_intersect_8_s15[16] => intersect(8, 15);
     @stretch c04_intersect_8_s3[16] => intersect(8, 3);
